@@ -153,7 +153,7 @@ Fixpoint U_entries_loop (p : path) (fuel : nat) (cnt : N) (bs : bytes) (acc : li
   match fuel with
   | O => Err EFuel
   | S f =>
-      if cnt =? 0 then Ok (rev acc, bs)
+      if cnt =? 0 then Ok (rev_append acc [], bs)
       else '(e, r) <- U_entry p bs ;; U_entries_loop p f (cnt - 1) r (e :: acc)
   end.
 
@@ -199,7 +199,7 @@ Fixpoint unmarshal_packed_loop (fuel : nat) (bs : bytes) (acc : list entry) {str
   | O => Err EFuel
   | S f =>
       match bs with
-      | [] => Ok (rev acc)
+      | [] => Ok (rev_append acc [])
       | _ => '(e, r) <- U_entry Slice bs ;; unmarshal_packed_loop f r (e :: acc)
       end
   end.
